@@ -135,15 +135,18 @@ def c08(A):
                 o.dec("gap_pairs", len(gaps) - 1)
                 for (g1, x1, y1), (g2, x2, y2) in zip(gaps, gaps[1:]):
                     if g2 < g1 - 4e-6:
-                        # is it only the jitter?  (gap = deterministic part + recorded draw)
-                        d1, d2 = own_draw(x1), own_draw(x2)
-                        if d1 is None or d2 is None:
-                            if A.cfg.jitter != "const":
-                                continue        # cannot separate the jitter from the deterministic part here
-                            d1 = d2 = 0.0
-                        det_ok = (g2 - d2) >= (g1 - d1) - 4e-6
-                        f = c_factor(A, c, x1)
-                        sub = "jitter-only" if det_ok else ("factor<1" if f is not None and f < 1 else "deterministic")
+                        fs = c_factors(A, c, r, first)
+                        if any(f < 1 for f in fs):
+                            sub = "factor<1"          # (was a known finding until fix 32)
+                            d1 = d2 = float("nan")
+                        else:
+                            # only the jitter?  (gap = deterministic part + the draw made when the timer was armed)
+                            d1, d2 = own_draw(x1), own_draw(x2)
+                            if d1 is not None and d2 is not None and (g2 - d2) >= (g1 - d1) - 4e-6:
+                                sub = "jitter-only"
+                            else:
+                                sub = "deterministic"
+                                d1 = d2 = float("nan")
                         o.bad("publish-gap-shrinks/%s" % sub,
                               "PUBLISH retry gaps shrink: %.4f s then %.4f s (jitter draws %.3f, %.3f)" % (g1, g2, d1, d2), y2)
                         break
@@ -173,14 +176,22 @@ def c08(A):
     return o.result()
 
 
-def c_factor(A, c, ev):
-    f = 2
-    for i2, cl in A.calls.items():
-        if cl["conn"] == c.idx and cl["op"] == "setBandwith" and i2 < ev["i"]:
-            rt = A.rets.get(i2)
-            if rt is not None and not rt.get("raised"):
-                f = cl["info"]["f"]
-    return f
+def c_factors(A, c, r, first):
+    """The setBandwith factor(s) that may be in force for a PUBLISH: the one configured when
+    publish() was called and the one configured when it was first sent (either reading)."""
+    out = []
+    points = [(first["conn"], first["i"])]
+    if r is not None:
+        points.append((A.calls[r.i_call]["conn"], r.i_call))
+    for (ci, upto) in points:
+        f = 2
+        for i2, cl in A.calls.items():
+            if cl["conn"] == ci and cl["op"] == "setBandwith" and i2 < upto:
+                rt = A.rets.get(i2)
+                if rt is not None and not rt.get("raised"):
+                    f = cl["info"]["f"]
+        out.append(f)
+    return out
 
 
 # --------------------------------------------------------------------------- C13
